@@ -50,7 +50,8 @@ RULE = ("states: all configurations within the cfg bounds x every action; a case
 
 SCHEMES = [("x", "y", "z", "t"), ("z", "y", "x", "w"), ("b", "a", "d", "c")]
 UNITS = [("m", "m", "m", "m"), ("nm", "s", "K", "rad"), ("a", "b", "c", "d")]
-VDIMS = {2: ("p", "q"), 3: ("mx", "my", "mz"), 4: ("a0", "a1", "a2", "a3")}
+# labels beginning with f, t or _ on purpose: stripping the ft_ prefix must not eat them (seeded change C11-3)
+VDIMS = {2: ("theta", "f"), 3: ("fx", "ty", "mz"), 4: ("t0", "f1", "a2", "tf")}
 DEFAULT_VDIMS = {2: ("x", "y"), 3: ("x", "y", "z"), 4: ("v0", "v1", "v2", "v3")}
 KSUF = ")$^{-1}$"
 
